@@ -276,12 +276,44 @@ def clause_orders_and_nested_types():
     return out
 
 
+def argument_permutations(tier='quick'):
+    """recursive calls whose arguments permute the caller's parameters across the register / spill boundary (x86-64: the 7th
+    variable onwards; AArch64: the 14th): the substitution before the call is a permutation with cycles through registers
+    and spill slots.  All non-identity permutations of each window of three positions."""
+    out = []
+    exprs = ["a", "b", "a + b", "a - b", "2 * a", "3 * b", "a + 3", "b - 5", "(2 * a) + b", "a - 7", "b + 11", "(3 * a) - b",
+             "a + 13", "b - 17", "(a + b) + 19", "a - 23", "b + 29"]
+    cfgs = [(9, [(4, 5, 6), (5, 6, 7), (6, 7, 8), (3, 6, 7)])]
+    if tier == 'quick':
+        cfgs.append((16, [(12, 13, 14)]))
+    else:
+        cfgs.append((16, [(11, 12, 13), (12, 13, 14), (13, 14, 15), (3, 13, 14)]))
+        cfgs.append((9, [(0, 5, 6), (2, 7, 8), (5, 7, 8)]))
+    for n, windows in cfgs:
+        names = [f"p{i}" for i in range(n)]
+        params = ", ".join(f"{x}: i64" for x in names) + ", k: i64"
+        for w in windows:
+            for perm in itertools.permutations(w):
+                if perm == w:
+                    continue
+                args = list(names)
+                for src_pos, dst_pos in zip(perm, w):
+                    args[dst_pos] = names[src_pos]
+                shown = "; ".join(f"println_i64(p{i})" for i in w)
+                body = (f"if k == 0 {{ {shown}; (p{w[0]} - p{w[1]}) + (2 * p{w[2]}) }} "
+                        f"else {{ rot({', '.join(args)}, k - 1) }}")
+                defs = f"def rot({params}): i64 {{ {body} }}\n"
+                call = f"rot({', '.join(exprs[:n])}, 1)"
+                out.append({'name': f"argperm/{n}/{'-'.join(map(str, w))}/{'-'.join(map(str, perm))}", 'src': prog(call, extra_defs=defs)})
+    return out
+
+
 def all_programs(tier='quick'):
     ps = name_reuse(("v", "x0") if tier == 'quick' else ("v", "x0", "a0", "x")) + generated_names() + effects_in_arguments() + cut_shapes() + live_variables()
-    return ps + fresh_clash() + lift_order() + positions_and_codata() + clause_orders_and_nested_types()
+    return ps + fresh_clash() + lift_order() + positions_and_codata() + clause_orders_and_nested_types() + argument_permutations(tier)
 
 
 def effect_sequenced(tier='quick'):
     """programs inside the fragment where Fun's evaluation order is unambiguous (C01, C02): no effects in call /
     constructor / destructor / operator arguments and no effects under codata-typed bindings"""
-    return name_reuse(("v", "x0") if tier == 'quick' else ("v", "x0", "a0", "x")) + generated_names() + cut_shapes() + live_variables() + fresh_clash() + lift_order() + [p for p in positions_and_codata() if not p['name'].startswith('codata-eff')] + clause_orders_and_nested_types()
+    return name_reuse(("v", "x0") if tier == 'quick' else ("v", "x0", "a0", "x")) + generated_names() + cut_shapes() + live_variables() + fresh_clash() + lift_order() + [p for p in positions_and_codata() if not p['name'].startswith('codata-eff')] + clause_orders_and_nested_types() + argument_permutations(tier)
